@@ -29,6 +29,10 @@ pub fn gen(seed: u64, tier: Tier) -> ScenarioSpec {
             rec.frames[l].present &= !bit;
         }
     }
+    if rng.chance(1, 6) {
+        // the payload table may declare events that never occur (a recorder built with support it does not use)
+        rec.extras.phantom = super::c17::gen_phantom(&mut rng, (rec.version[0], rec.version[1]));
+    }
     let len = gen::approx_len(&rec);
     let live = rng.chance(1, 2);
     let mut spec = gen::base_spec(P, if live { "S2" } else { "S1" }, seed, rec);
